@@ -56,6 +56,7 @@ Cfg(dn, st, sh, up, md, im) == [d |-> dn, stamp |-> st, shout |-> sh, upcase |->
 Base(b) == CASE b = 1 -> Cfg(1, FALSE, FALSE, TRUE, "strict", FALSE)
              [] b = 2 -> Cfg(3, FALSE, FALSE, TRUE, "strict", FALSE)
              [] b = 3 -> Cfg(2, FALSE, FALSE, TRUE, "lax", FALSE)
+             [] b = 4 -> Cfg(1, FALSE, FALSE, TRUE, "strict", TRUE)          \* liquid.Template(): an implicit environment
 AllVars == {"role1", "role2", "role3", "role4", "role5", "role6", "comments", "custom", "stamp", "shout", "noupcase",
             "lax", "warn", "impl", "same"}
 RoleOf(v) == CASE v = "role1" -> 1 [] v = "role2" -> 2 [] v = "role3" -> 3 [] v = "role4" -> 4 [] v = "role5" -> 5 [] v = "role6" -> 6 [] OTHER -> 0
@@ -65,6 +66,7 @@ Applicable(c, v) ==
     [] v = "custom" -> c.d \in 1..3
     [] v \in {"lax", "warn"} -> c.mode # v
     [] v = "impl" -> ~c.stamp /\ ~c.shout /\ c.upcase /\ ~c.impl
+    [] v \in {"stamp", "shout", "noupcase"} -> ~c.impl                        \* liquid.Template() cannot register anything
     [] OTHER -> TRUE
 Apply(c, v) ==
   CASE RoleOf(v) # 0 -> [c EXCEPT !.d = 4 + RoleOf(v)]
@@ -90,7 +92,7 @@ KToks(f, comments) ==
   <<T(<<"a">>), O(wOup, F, F), G(wIfTrue, F, F), T(<<"Y">>), G(wEndif, F, F)>>
   \o (IF f = "stamp" THEN <<G(wStamp, F, F)>> ELSE <<>>)
   \o (IF f = "shout" THEN <<O(wXshout, F, F)>> ELSE <<>>)
-  \o (IF comments THEN <<C(wC, F, F)>> ELSE <<>>)
+  \o (IF comments THEN <<C(wC, F, F), Q(<<Ln("mark", wNote), Ln("tag", wEchoM)>>, F, F)>> ELSE <<>>)
   \o <<T(<<"b">>)>>
 Src(dn, f) == Rewrite(KToks(f, HasComments(DSetOf(dn))), DSetOf(dn))
 ASSUME TemplatesAdmissible == \A dn \in DIds : \A f \in Features : Admissible(KToks(f, HasComments(DSetOf(dn))), DSetOf(dn))
@@ -145,6 +147,7 @@ RenderResult(t, dl, pe, e) ==
      ELSE Out(<<"a">> \o (IF fl.upcase THEN <<"O">> ELSE <<>>) \o <<"Y">>
               \o (IF feat = "stamp" /\ tg.stamp THEN <<"S">> ELSE <<>>)
               \o (IF feat = "shout" /\ fl.shout THEN <<"X", "!">> ELSE <<>>)
+              \o (IF HasComments(DSetOf(cfgs[t].d)) THEN <<"m">> ELSE <<>>)          \* the liquid tag after the comment
               \o <<"b">>)
 
 (* ---- the history --------------------------------------------------------------------------------------- *)
